@@ -1,8 +1,9 @@
 """C03 (see DESIGN.md section 6)."""
 from vlib.framework import PUnit, LUnit, BUnit
 from bounded import b_coords as B
+from contracts import build_system as BS
 
-P_UNITS = []
+P_UNITS = [PUnit("density-box", [BS.BOX], BS.REG)]
 
 
 def build(tier, seed):
